@@ -83,6 +83,8 @@ def truth(facts, body, f):
 
 
 def run(facts, chk, tier, only=None):
+    from . import cli_parsers
+    cli_parsers.check_min_count_option(facts, chk, 'C12.opt')
     from . import skiter
     chk.guard('C12.func', 'C12.func:iterator-quality', lambda: skiter.check_reads(facts, chk, 'C12.func', tier))
     chk.guard('C12.func', 'C12.func:dictionary-reads', lambda: skiter.check_dict_reads(facts, chk, 'C12.func', tier))
